@@ -5,7 +5,7 @@ import bisect, os, sys
 from harness.common import zlit
 
 VFILES = ['Gen/GenUtils.v', 'Model/FastLen.v', 'Proofs/FastLenA.v', 'Proofs/FastLenB.v', 'Proofs/FastLenPrev.v',
-          'Proofs/FastLenTop.v', 'Props/C18.v']
+          'Proofs/FastLenTop.v', 'Lib/PySlice.v', 'Model/Ledger.v', 'Gen/GenLedger.v', 'Gen/GenFastLenCrop.v', 'Proofs/LedgerGen.v', 'Props/C18.v']
 
 
 def smooth_numbers(limit):
